@@ -6,3 +6,5 @@ INVARIANT SameUnitPlain
 INVARIANT OrderCorrectWhenSeparated
 INVARIANT ConvertIdentity
 CHECK_DEADLOCK FALSE
+INVARIANT ConvertWithinTolerance
+INVARIANT AddWithinTolerance
